@@ -9,7 +9,8 @@ ddir=$(dirname "$wt/$demo")
 echo "== demo: $demo"
 (cd $ddir && timeout 300 go test -vet=off -count=1 -run 'TestMutDemo' . 2>&1 | tail -3) > /tmp/mut/$id.with.log
 echo "with change: $(tail -1 /tmp/mut/$id.with.log)"
-(cd $wt && git stash -q && cd $ddir && timeout 300 go test -vet=off -count=1 -run 'TestMutDemo' . 2>&1 | tail -3; cd $wt && git stash pop -q) > /tmp/mut/$id.without.log
+# (git stash is shared by all worktrees of one repository: use a reverse patch instead)
+(cd $wt && git diff > /tmp/mut/$id.cur.diff && git apply -R /tmp/mut/$id.cur.diff && cd $ddir && timeout 300 go test -vet=off -count=1 -run 'TestMutDemo' . 2>&1 | tail -3; cd $wt && git apply /tmp/mut/$id.cur.diff) > /tmp/mut/$id.without.log
 echo "without change: $(tail -1 /tmp/mut/$id.without.log)"
 echo "== applying to /repo"
 git -C /repo apply $out/patch.diff || { echo "PATCH DOES NOT APPLY"; exit 3; }
